@@ -636,6 +636,7 @@ func main() {
 		"GenKernels.v": genKernels(),
 		"GenFuncs.v":   genFuncs(),
 		"GenSorter.v":  genSorter(),
+		"GenGrouper.v": genGrouper(),
 	}
 	// Files are written even when problems were found so that the directed search can still build: every
 	// definition that could not be derived from the current source is taken from the golden copy (the output
